@@ -2,7 +2,7 @@
 import opscheck
 
 CLAUSES = ["C06_DiffConst", "C06_CentralConst", "C06_UpwindConst", "C06_UpwindAltConst",
-           "C06_SourceDiag", "C06_SourceVec"]
+           "C06_SourceDiag", "C06_SourceVec", "C06_TvdConst"]
 
 
 def run(tier, seed):
